@@ -76,6 +76,10 @@ class SyncEngine(BaseEngine):
                     raise
         finally:
             self._processing.release()
+        if self._external_queue:
+            # Another thread enqueued an event after our last emptiness test but failed to
+            # acquire the lock before we released it: nobody else will process it.
+            self.processing_loop()
         return first_result if first_result is not self._sentinel else None
 
     def _trigger(self, trigger_data: TriggerData):
